@@ -135,6 +135,9 @@ const char *sio_first_live (void) ;
 typedef int (*SioFaultFn) (int kind, int fd, sf_count_t requested, sf_count_t *answer, int *err, void *user) ;
 void  sio_set_fault (SioFaultFn fn, void *user) ;
 extern long sio_ncalls ;
+enum { SIO_OPEN = 100, SIO_FOPEN, SIO_FWRITE, SIO_FREAD } ;	/* kinds beyond the MD_* ones */
+long  sio_lib_files_open (void) ;		/* FILE streams opened in-lib and not closed */
+void  sio_reset_files (void) ;
 int   sio_memfd (const char *name) ;			/* harness-side descriptor */
 int   sio_real_close (int fd) ;
 long  sio_real_read (int fd, void *p, size_t n) ;
